@@ -14,18 +14,19 @@ SHARDS = {"quick": 8, "thorough": 16}
 BUDGET = {"quick": 25, "thorough": 240}
 MIN_CASES = {"quick": 100000, "thorough": 400000}
 EXHAUSTIVE_CLAIM = True
-RULE = ("universe A: 2 schemes x 2 ports x 17 host chains (incl. all-hex labels) (depth <= 4, multi-label / wildcard / exception suffixes, look-alikes such as a.com.evil.com) x 8 path chains (incl. an escaped slash) x "
-        "optional query x optional fragment = 2176 URLs, ALL ordered pairs x suffix_aware in {False,True}; thorough adds universe B (other labels, 3-label suffixes, deeper paths). "
+RULE = ("universe A: 2 schemes x 2 ports x 19 host chains (incl. all-hex labels) (depth <= 4, multi-label / wildcard / exception suffixes, look-alikes such as a.com.evil.com) x 8 path chains (incl. an escaped slash) x "
+        "optional query x optional fragment = 2432 URLs, ALL ordered pairs x suffix_aware in {False,True}; thorough adds universe B (other labels, 3-label suffixes, deeper paths). "
         "A case is an ordered pair (u, v, suffix_aware); non-trivial = under(u,v) holds or the stems of u are a prefix of the stems of v or the two share scheme, port and the last host label; "
         "distinct = distinct pair.")
-ASSUMPTIONS = ["under(u,v) computed on the generator's structured records; public suffix by the reference PSL matcher (vf/ref/psl.py)",
+ASSUMPTIONS = ["under(u,v) computed on the generator's structured records; public suffix by the reference PSL matcher (vf/ref/psl.py) over the bundled list (universe A: over the 8 long-standing rules its hosts fall under, pinned in the check)",
                "with suffix_aware the ancestor relation is taken on the suffix-aware label chain ('co.uk' is one element)", "URLs without userinfo"]
-FLOORS = ["under-true", "under-false-prefix-false", "pair-host-ancestor", "pair-path-ancestor", "pair-query-added", "pair-fragment-added", "pair-lookalike-host",
+FLOORS = ["call-order-rechecked", "protocol-less-spelling-checked", "under-true", "under-false-prefix-false", "pair-host-ancestor", "pair-path-ancestor", "pair-query-added", "pair-fragment-added", "pair-lookalike-host",
           "suffix-aware-multi-label", "string-prefix-checked"]
 PROBE_FLOORS = ["lru_stems_from_parsed_url"]
 
-HOSTS_A = ["com", "a.com", "b.a.com", "a.com.evil.com", "uk", "co.uk", "a.co.uk", "b.a.co.uk", "lemonde.fr", "lemonde.fr.evil.com", "foo.ck", "x.foo.ck", "www.ck", "a.co",
+HOSTS_A = ["com", "a.com", "b.a.com", "a.com.evil.com", "uk", "co.uk", "a.co.uk", "b.a.co.uk", "lemonde.fr", "lemonde.fr.evil.com", "ck", "foo.ck", "x.foo.ck", "www.ck", "a.www.ck", "a.co",
            "de", "abc.de", "f.abc.de"]  # all-hex labels: must not be mistaken for an IPv6-like special host
+RULES_A = ["com", "uk", "co.uk", "fr", "*.ck", "!www.ck", "co", "de"]
 PATHS_A = [(), ("",), ("x",), ("x", ""), ("x", "y"), ("y",), ("x", "y", "z"), ("x%2Fy",)]  # an escaped slash is not a segment boundary
 HOSTS_B = ["org", "w.org", "v.w.org", "compute.amazonaws.com", "h.compute.amazonaws.com", "g.h.compute.amazonaws.com", "amazonaws.com", "s3.amazonaws.com",
            "x.city.kawasaki.jp", "city.kawasaki.jp", "q.kawasaki.jp", "r.q.kawasaki.jp", "1.2.3.4", "localhost", "wx.org", "w.orgx"]
@@ -77,6 +78,7 @@ def clean(stems):
 def check_universe(ctx, name, uni, psl):
     from ural.lru import lru_stems, url_to_lru, serialize_lru
 
+    recorded = {}
     for sa in (False, True):
         rec = []
         for r in uni:
@@ -86,6 +88,9 @@ def check_universe(ctx, name, uni, psl):
             except Exception as e:
                 ctx.viol("C13:exception:" + ctx.exc("lru_stems", e), {"url": r["url"], "suffix_aware": sa})
                 st, raw = None, None
+            recorded[(r["url"], sa)] = (list(st) if st is not None else None, raw)
+            if ctx.shard == 0:
+                ctx.remember("ural.lru:lru_stems", [r["url"]], {"suffix_aware": sa}, st, cap=20000)
             c = clean(st) if st is not None else None
             rec.append((r, chain(r["host"], sa, psl), c, tuple(c) if c is not None else None, serialize_lru(c) if c is not None else None, raw,
                         st is not None and "p:" not in st))
@@ -139,6 +144,34 @@ def check_universe(ctx, name, uni, psl):
         ctx.ev(n_pairs)
         ctx.exhaustive_space("ordered pairs of universe %s (%d URLs), suffix_aware=%s" % (name, n, sa), n_pairs)
         ctx.cls("universe-%s-sa-%s" % (name, sa), n_pairs)
+    # the relation is between two URLs, whatever was converted before: the recorded conversions are repeated in another call order
+    # (reverse, the two suffix_aware settings of one URL back to back, then the protocol-less spelling of the http URLs, which ural
+    # reads as http) and must come out the same
+    if ctx.shard == 0:
+        for r in reversed(uni):
+            for sa in (True, False, True):
+                want = recorded.get((r["url"], sa))
+                if want is None or want[0] is None:
+                    continue
+                try:
+                    got = (lru_stems(r["url"], suffix_aware=sa), url_to_lru(r["url"], suffix_aware=sa))
+                except Exception as e:
+                    ctx.viol("C13:exception:" + ctx.exc("lru_stems", e), {"url": r["url"], "suffix_aware": sa})
+                    continue
+                ctx.count("call-order-rechecked")
+                if list(got[0]) != want[0] or got[1] != want[1]:
+                    ctx.viol("C13:result-depends-on-call-order", {"url": r["url"], "suffix_aware": sa}, {"first": want, "later": got})
+                if r["scheme"] == "http":
+                    bare = r["url"][len("http://"):]
+                    try:
+                        gb = lru_stems(bare, suffix_aware=sa)
+                    except Exception as e:
+                        ctx.viol("C13:exception:" + ctx.exc("lru_stems", e), {"url": bare, "suffix_aware": sa})
+                        continue
+                    ctx.count("protocol-less-spelling-checked")
+                    if list(gb) != want[0]:
+                        ctx.viol("C13:protocol-less-spelling-has-other-stems", {"url": bare, "suffix_aware": sa}, {"with_http": want[0], "without": gb})
+        ctx.ev(len(uni) * 3)
 
 
 def run(ctx):
@@ -151,7 +184,13 @@ def run(ctx):
     try:
         A = build(HOSTS_A, PATHS_A)
         ctx.sample("universe-A", [A[0]["url"], A[5]["url"], A[777]["url"], A[-1]["url"]])
-        check_universe(ctx, "A", A, psl)
+        # universe A is judged with the handful of long-standing rules its hosts fall under, written down here, so that the oracle of
+        # this universe does not move with the bundled list (the other universes follow the bundled list)
+        psl_a = PSL(RULES_A)
+        for h in HOSTS_A:
+            if chain(h, True, psl_a) != chain(h, True, psl):
+                ctx.count("universe-A-bundled-list-disagrees-with-pinned-rules")
+        check_universe(ctx, "A", A, psl_a)
         # hosts that merely START like a special host, and hosts under an interior (non-rule) node of a longer private rule
         D = build(["nip.io", "10.0.0.1.nip.io", "example.com", "localhost.example.com", "amazonaws.com", "aws.amazonaws.com", "docs.aws.amazonaws.com", "os.fedoraproject.org", "x.os.fedoraproject.org"],
                   [(), ("x",)])
@@ -190,6 +229,8 @@ def replay(ctx, witness):
         return
     sa = witness["suffix_aware"]
     u, v = rec(witness["u"]), rec(witness["v"])
+    if u["host"] in HOSTS_A and v["host"] in HOSTS_A:
+        psl = PSL(RULES_A)
     cu, cv = chain(u["host"], sa, psl), chain(v["host"], sa, psl)
     su, sv = clean(lru_stems(u["url"], suffix_aware=sa)), clean(lru_stems(v["url"], suffix_aware=sa))
     und = under(u, v, cu, cv)
